@@ -139,6 +139,7 @@ type gmwJob struct {
 type gmwRun struct {
 	outs   [][]*big.Int
 	more   [][][]*big.Int // outputs of the further circuits run on the same network: job -> party -> values
+	incomp []string       // parties whose Connect returned without both connections to every other party
 	errs   []error
 	events map[int]map[int]gmw.VerifAndBatch // batch -> party -> event
 }
@@ -190,6 +191,10 @@ func runGMW(circ *circuit.Circuit, inputs []*big.Int, rng *rand.Rand, timeout ti
 		runDelays[rng.Intn(n)] = 0
 		runDelays[rng.Intn(n)] = 250 * time.Millisecond
 	}
+	lateHello := -1
+	if stagger || rng.Intn(3) == 0 {
+		lateHello = 1 + rng.Intn(n-1)
+	}
 	var wg sync.WaitGroup
 	var jmu sync.Mutex
 	var jerr error
@@ -217,9 +222,28 @@ func runGMW(circ *circuit.Circuit, inputs []*big.Int, rng *rand.Rand, timeout ti
 				jmu.Unlock()
 			}
 			nw := nets[p]
+			// one joiner has opened its connection to the leader (Join) but says hello (Connect) only later: the
+			// leader's single accept loop waits on that silent connection while the others are queued behind it
+			if p > 0 && p == lateHello {
+				time.Sleep(300 * time.Millisecond)
+			}
 			if err := nw.Connect([]int{int(circ.Inputs[p].Type.Bits)}); err != nil {
 				r.errs[p] = fmt.Errorf("Connect: %v", err)
 				return
+			}
+			// GmwNet.tla Complete: when Connect has returned, the party holds the online and the offline connection
+			// with every other party
+			vps := nw.VerifPeers()
+			okc := len(vps) == n-1
+			for _, vp := range vps {
+				if !vp.Online || !vp.Offline {
+					okc = false
+				}
+			}
+			if !okc {
+				jmu.Lock()
+				r.incomp = append(r.incomp, fmt.Sprintf("party %d of %d: Connect returned with the connection table %+v", p, n, vps))
+				jmu.Unlock()
 			}
 			// parties enter the online phase at different points of the offline phase
 			time.Sleep(runDelays[p])
@@ -459,6 +483,9 @@ func c10Main(args []string) error {
 				return err
 			}
 			if len(res.Viol) == 0 {
+				for _, m := range r.incomp {
+					res.viol("formation-incomplete", "%s", m)
+				}
 				for p := 0; p < n; p++ {
 					if r.errs[p] != nil {
 						res.viol("error", "party %d of %d: %v", p, n, r.errs[p])
